@@ -467,6 +467,15 @@ def run(ctx):
                     c = schedule_AB_parked(sc, rng, k, j, qn, role)
                     if c:
                         cases.append(c)
+        if sc.startswith('deprecated') and cps:
+            # the merge of a deprecated default tests the file-rule record and then reads it: the second call is
+            # suspended at EVERY line of its call while the reloader sits right after its first own store change
+            for qn, role in asks[:1]:
+                for k in cps[:2]:
+                    for j in range(1, nb + 40):
+                        c = schedule_AB_parked(sc, rng, k, j, qn, role)
+                        if c:
+                            cases.append(c)
         n_sched += len(cases)
         ctx.traces += len(cases)
         verdicts = judge(sc, cases, 'Conforms')
